@@ -73,6 +73,8 @@ def run(ctx):
     # always present: importance sampling with a proposal that leaks a third of its mass outside the prior support onto a
     # posterior hugging that bound (the mean weight must be taken over ALL draws, zero-weight ones included)
     leaky = [("bound-hugging-leaky", lambda d: BoxGauss(d, 1.0, 4.3), d, "importance", None, None, {}) for d in (1, 2)]
+    # ... and the same leaky proposal under SMC with the bounded-to-unbounded map off (found by the hunting round, finding F55)
+    leaky.append(("bound-hugging-leaky", lambda d: BoxGauss(d, 1.0, 4.3), 1, "minipcn_smc", "none", None, {}))
     if ctx.quick:
         ctx.rng.shuffle(configs)
         configs = configs[:12]
